@@ -156,6 +156,7 @@ pub struct TypeVariable {
     #[allow(unused)]
     pub definition: Span,
     pub is_global: bool,
+    pub is_entry_point: bool,
     pub kind: VarKind,
     pub ty: TyID,
 }
@@ -210,6 +211,7 @@ impl TypeChecker {
                 name: var.name.clone(),
                 id: var.id,
                 is_global: var.is_global,
+                is_entry_point: var.is_entry_point,
                 definition: var.definition,
                 kind: var.kind,
                 ty,
@@ -2093,10 +2095,8 @@ pub(crate) fn solve(
     namespace_to_file: &HashMap<NamespaceID, FileOrLib>,
 ) -> TypeResult<TypeChecker> {
     let mut tc = TypeChecker::new(vars, namespace_to_file);
-    // TODO(ed): We assume the first global start we find is the start-function.
-    // We check that there's a "start" in the main file in `name_resolution`.
-    // I hope this is good enough.
-    let start = vars.iter().find(|x| &x.name == "start" && x.is_global);
+    // `name_resolution` marks the "start" that the main file binds.
+    let start = vars.iter().find(|x| x.is_entry_point);
     tc.solve(&statements, start)?;
     Ok(tc)
 }
